@@ -218,12 +218,14 @@ S_loop ==
   /\ UNCHANGED <<cfg, ret, dom, dlen, lsign, t0l, t0u, tm1, branch, escape, selKey>>
   /\ UNCHANGED nestVars /\ UNCHANGED rwVars
 
-S_extra ==   \* coordinates = self.coordinates_domain[i] : indexed by the ITERATION COUNT (as the code does)
+S_extra ==   \* unrepaired: coordinates = self.coordinates_domain[i], indexed by the ITERATION COUNT, result dropped;
+             \* repaired (F13): the end of the bracket, x_r_idx, is evaluated again and (re)stored
   /\ pc = "S_extra"
-  /\ IF it + 1 > Len(dom) \/ it + 1 > dlen
+  /\ LET ix == IF "F13" \in Fixed THEN xr ELSE it IN
+     IF ix + 1 > Len(dom) \/ ix + 1 > dlen
      THEN Throw("IndexError", "list index out of range") /\ UNCHANGED <<memo, log, live, lastSim, gfam, calc>>
-     ELSE \E v \in Vals : /\ DoEval(dom[it + 1], Hmax, v) /\ pc' = "S_pick" /\ UNCHANGED outcome
-                          /\ calc' = IF "F13" \in Fixed THEN Put(calc, it, v) ELSE calc
+     ELSE \E v \in Vals : /\ DoEval(dom[ix + 1], Hmax, v) /\ pc' = "S_pick" /\ UNCHANGED outcome
+                          /\ calc' = IF "F13" \in Fixed THEN Put(calc, ix, v) ELSE calc
   /\ UNCHANGED <<cfg, ret, dom, dlen, xl, xr, it, lsign, t0l, t0u, tm1, branch, escape, selKey>>
   /\ UNCHANGED nestVars /\ UNCHANGED rwVars
 
@@ -632,7 +634,8 @@ OnlyValueError ==
 
 \* Real physics never returns bit-identical excess for two different fields; with ties the dict-order dependent
 \* values.index() pick differs from the documented rule.  Tie oracles are replayed for conformance, not judged.
-NoTies == \A k1, k2 \in DOMAIN memo : (k1 # k2 /\ k1[2] = "max" /\ k2[2] = "max") => memo[k1] # memo[k2]
+\* (only non-positive values take part in the selection, so only their ties matter)
+NoTies == \A k1, k2 \in DOMAIN memo : (k1 # k2 /\ k1[2] = "max" /\ k2[2] = "max" /\ memo[k1] <= 0) => memo[k1] # memo[k2]
 
 \* C05 (1D, rectangle, bi-rectangle inner): bisect branch => predecessor evaluated infeasible, selection feasible
 PredecessorFails ==
@@ -678,6 +681,13 @@ Terminates == <>(pc = "Done")
 Known_F3 == Done /\ IsSel /\ FinalH = Hmin /\ lastSim = <<SelF, Hmax>>
 Known_F8 == Done /\ Mode = "RW" /\ branch = "Removal" /\ outcome = Raise("TypeError", "object of type 'NoneType' has no len()")
 Known_F10 == Done /\ Mode = "ZD"
+\* F16: the cap is applied as "last index whose count is below max_boreholes"; in a list whose counts are not
+\* monotone (bi-zoned saw-tooth) earlier indices can exceed the cap and be selected
+LastAllowedIdx(j) == SetMax(AllowedIdx(j))
+Known_F16 == /\ Done /\ IsSel /\ Mode = "ZD" /\ cfg.cap # 0 /\ Cnt(SelF) >= cfg.cap
+             /\ SelF[2] < LastAllowedIdx(SelF[1])
+CapRespectedK == CapRespected \/ Known_F16
+F16Present == ~(Known_F16 /\ ~CapRespected)
 Known_F12 == Done /\ Mode = "ZD" /\ cfg.cont /\ outcome = Raise("ValueError", "max()")
 
 Alias == [pc |-> pc, cfg |-> cfg, log |-> log, outcome |-> outcome, branch |-> branch, escape |-> escape,
@@ -692,7 +702,7 @@ Emit == Done => PrintT(ToJson([cfg |-> cfg, mode |-> Mode, log |-> log, outcome 
                                  calc |-> calc, heights |-> heights, selOuter |-> selOuter, phase |-> phase,
                                  memo |-> MemoAsSeq,
                                  inv |-> [FinalExcessNonPositive |-> FinalExcessNonPositive, HeightInBounds |-> HeightInBounds,
-                                          CapRespected |-> CapRespected, OnlyValueError |-> OnlyValueError,
+                                          CapRespected |-> CapRespected, Known_F16 |-> Known_F16, OnlyValueError |-> OnlyValueError,
                                           UnmetPolicy |-> UnmetPolicy, UnmetPolicy1D |-> UnmetPolicy1D, UnmetPolicyRW |-> UnmetPolicyRW,
                                           NoLessDrillingEvaluated |-> NoLessDrillingEvaluated,
                                           RootUnlessClamped |-> RootUnlessClamped, ReportedIsLastSim |-> ReportedIsLastSim]]))
